@@ -283,10 +283,19 @@ func runEvCase(c evCase) *evRun {
 		}
 		// an atomic bulk whose BeginTX fails (on an initializing ledger the facade's BeginTX runs the prelude of handleState --
 		// ledger lock, state flip, sequence resync -- inside the transaction it has just begun): Run returns the error and no
-		// element is processed.  In the model that is a bulk whose first element fails before its own sub-transaction.
+		// element is processed.  In the model that is the prelude outcome of the bulk (Events.v: bprelude): fail, or cancel when
+		// the context was cancelled there.
 		beginFailed := s.Bulk && s.Atomic && runErr != nil && len(results) == 0
+		prelude := "ok"
+		if beginFailed {
+			prelude = "fail"
+			if s.Fault.Kind == "cancel_stmt" && cancelHit {
+				prelude = "cancel"
+			}
+		}
 		// abstract description of the step
 		hit, stepFailed := false, beginFailed
+		stepSeen := map[int64]bool{}
 		outs := make([]string, len(s.Ops))
 		for i := range s.Ops {
 			r := OpResult{Class: "cancelled"}
@@ -297,17 +306,17 @@ func runEvCase(c evCase) *evRun {
 			if i < len(s.Exp) {
 				exp = s.Exp[i]
 			}
-			isHit := r.Class == "none" && (r.Hit || seenLog[r.LogID])
+			isHit := r.Class == "none" && (r.Hit || seenLog[r.LogID] || stepSeen[r.LogID])
+			if r.Class == "none" && !s.Ops[i].Dry {
+				stepSeen[r.LogID] = true // a later element of the same bulk answering with this log id is a replay
+			}
 			injCommit := strings.Contains(r.Class, "injected COMMIT failure")
 			injStmt := strings.Contains(r.Class, "injected statement failure")
 			txDone := strings.Contains(r.Class, "transaction has already been committed or rolled back")
 			ctxCancelled := r.Class == "cancelled" || strings.Contains(r.Class, "context canceled")
 			switch {
-			case beginFailed && i == 0 && s.Fault.Kind == "cancel_stmt" && cancelHit:
-				outs[i] = L("cancel", "0")
-				cancelAssigned = true
-			case beginFailed && i == 0:
-				outs[i] = "early"
+			case beginFailed:
+				outs[i] = "ok" // never executed: irrelevant to the model
 			case exp == "ok" || exp == "fail":
 				outs[i] = exp
 				if (r.Class == "none") != (exp == "ok") && r.Class != "cancelled" {
@@ -360,7 +369,7 @@ func runEvCase(c evCase) *evRun {
 			run.Abstract = append(run.Abstract, L("cancelcommit", fmt.Sprint(s.Fault.N)))
 		}
 		if s.Bulk {
-			run.Abstract = append(run.Abstract, L("bulk", b01(s.Atomic), b01(s.Cont), L(outs...)))
+			run.Abstract = append(run.Abstract, L("bulk", b01(s.Atomic), b01(s.Cont), prelude, L(outs...)))
 		} else {
 			run.Abstract = append(run.Abstract, L("w", b01(s.Ops[0].Dry), outs[0]))
 		}
@@ -477,9 +486,11 @@ func monitorC31(r *evRun) []string {
 				early[it.ID] = true
 				say(fmt.Sprintf("event %q (log %d) published at commit-seq %d while the transaction that wrote the log is still open %s", it.Desc, it.ID, it.Seq, ctxTag))
 			} else {
+				// covers the event of a rolled-back / commit-failed write, a second event for a committed write and the
+				// re-publication by an idempotent replay (repaired: KF-C31-replay-republishes)
 				tag := "[event-without-commit]"
 				if it.Op < len(r.HitOp) && r.HitOp[it.Op] {
-					tag = "[dup-event:replay]"
+					tag = "[event-without-commit] (the operation is an idempotent replay)"
 				}
 				say(fmt.Sprintf("event %q (log %d) published although no committed, not yet published write stands for it %s", it.Desc, it.ID, tag))
 			}
@@ -697,6 +708,24 @@ func cmdEvents(args []string) int {
 				w2.Now = now + 1000000
 				if c, ok := step(ctx, w1, evFault{Kind: "none"}, "ok"); ok {
 					c.Steps = append(c.Steps, evStep{Ops: []Op{w2}, Fault: evFault{Kind: "none"}, Exp: []string{"obs"}})
+					finish(runEvCase(c), ctx+"_replay")
+					// dry-run replay
+					w3 := w2
+					w3.Dry = true
+					c.Steps[1] = evStep{Ops: []Op{w3}, Fault: evFault{Kind: "none"}, Exp: []string{"obs"}}
+					finish(runEvCase(c), ctx+"_replay")
+				}
+			}
+			// the same request twice inside one bulk (second element answered from the first one's log), then once more alone
+			if strings.Contains(ctx, "atomic") && !(needsTx && fresh) && kind != "revert" && want("none") {
+				w1 := okW
+				w1.IK = "ik-replay"
+				if c, ok := step(ctx, w1, evFault{Kind: "none"}, "ok"); ok {
+					c.Steps[0].Ops[0] = w1
+					c.Steps[0].Exp = []string{"ok", "obs", "ok"}
+					w2 := w1
+					w2.Now = now + 1000000
+					c.Steps = append(c.Steps, evStep{Bulk: true, Ops: []Op{w2}, Fault: evFault{Kind: "none"}, Exp: []string{"obs"}})
 					finish(runEvCase(c), ctx+"_replay")
 				}
 			}
